@@ -607,3 +607,170 @@ def assign_compiler_operand_roles(F, rep, rule):
 def X_type_head(t):
     from lib import fxn as _X
     return _X.type_head(t)
+
+
+# ---------------------------------------------------------------- trial environments are fresh per candidate (C14-R7 / C16-R8 / C17-R6)
+MATCHERS = ("pattern_match_value", "pattern_matches_value", "pattern_matches_value_with_semantics", "pattern_matches_arguments")
+
+
+def trial_env_fresh(F, rep, rule, fns, floor):
+    """Every candidate (generator element, match arm, function arm, FSM arm) is matched against its OWN scratch environment: the `&mut X` handed to a pattern matcher
+    inside a loop over candidates is declared by a `let` inside that loop's body, so bindings made by a match that later fails cannot survive into the next candidate."""
+    rep.rule(rule, "trial matches use a fresh scratch environment: the environment passed `&mut` to pattern_match_value / pattern_matches_* inside a loop over candidates is declared inside "
+                   "the body of the innermost such loop (a matcher binds sub-patterns left to right and leaves them behind when a later sub-pattern fails; reusing the environment "
+                   "turns those leftovers into join constraints for the next candidate)")
+    n = 0
+    for it in F.syn("mech_interpreter.lib"):
+        if it["k"] != "fn" or it["name"] not in fns or not it.get("body"):
+            continue
+        params = {p[0][1] for p in it["sig"]["inputs"] if is_node(p[0]) and p[0][0] == "pident"}
+
+        def rec(stmts, loops):
+            """loops: list of loop bodies (statement lists) enclosing, innermost last"""
+            nonlocal n
+            for st in stmts:
+                for e in ([st[2]] if st[0] == "let" and len(st) > 2 and st[2] is not None else [st[1]] if st[0] == "expr" else []):
+                    visit(e, loops)
+
+        def visit(e, loops):
+            nonlocal n
+            if not is_node(e):
+                if isinstance(e, list):
+                    for x in e:
+                        visit(x, loops)
+                return
+            t = e[0]
+            if t == "for":
+                visit(e[2], loops)
+                rec(e[3], loops + [e[3]])
+                return
+            if t == "while":
+                visit(e[1], loops)
+                rec(e[2], loops + [e[2]])
+                return
+            if t == "loop":
+                rec(e[1], loops + [e[1]])
+                return
+            if t in ("block", "unsafe"):
+                rec(e[1], loops)
+                return
+            if t == "if":
+                visit(e[1], loops)
+                rec(e[2], loops)
+                if e[3] is not None:
+                    visit(e[3], loops)
+                return
+            if t == "call" and (path_of(e[1]) or "").split("::")[-1] in MATCHERS and loops:
+                envs = [a for a in e[2] if is_node(a) and a[0] == "ref" and a[1] and is_node(a[2]) and a[2][0] == "path"]
+                for a in envs:
+                    x = a[2][1]
+                    if x in params:
+                        continue
+                    n += 1
+                    inner = loops[-1]
+                    declared_inside = any(s[0] == "let" and any(p_[1] == x for p_ in find(s[1], "pident")) for s in walk(inner) if is_node(s) and s[0] == "let")
+                    m = (path_of(e[1]) or "").split("::")[-1]
+                    rep.check(declared_inside, rule, "%s:%s(&mut %s)" % (it["name"], m, x) + ("" if declared_inside else ":reused-across-candidates"),
+                              "%s calls %s(.., &mut %s) inside a loop over candidates, but `%s` is declared outside that loop: bindings left behind by a match that fails part-way are still there when "
+                              "the next candidate is matched and reject (or wrongly constrain) it" % (it["name"], m, x, x), "%s (mech_interpreter.lib)" % it["name"],
+                              sample={"fn": it["name"], "matcher": m, "env": x})
+            for x in e[1:]:
+                if isinstance(x, list):
+                    if x and all(is_node(y) and y[0] in ("let", "expr", "item") for y in x):
+                        rec(x, loops)
+                    else:
+                        visit(x, loops)
+
+        rec(it["body"], [])
+    rep.floor(rule, "trial-match sites inside candidate loops", n, floor)
+
+
+# ---------------------------------------------------------------- C16-R9 exhaustiveness checks are skipped only for a genuine wildcard arm
+def c16_catch_all_predicate(F, rep):
+    from lib import guards as G
+    rep.rule("C16-R9", "non-exhaustive matches are rejected unless a genuine wildcard arm exists: every construction of a *NonExhaustive* error is reached under the negation of an "
+                       "`arms.any(|arm| matches!(arm.pattern, P))` flag, and P is exactly Pattern::Wildcard (a wider P - e.g. Pattern::Expression, which also carries atom literals "
+                       "like `:red` - switches the enum coverage check off for arm lists that are not exhaustive)")
+    n = 0
+    for it in F.syn("mech_interpreter.lib"):
+        if it["k"] != "fn" or not it.get("body"):
+            continue
+        lets = {}
+        for st in find(it["body"], "let"):
+            if st[1][0] == "pident" and len(st) > 2 and st[2] is not None:
+                lets.setdefault(st[1][1], st[2])
+        for s, facts in G.sites(it["body"], "struct") + G.sites(it["body"], "path"):
+            if "NonExhaustive" not in s[1]:
+                continue
+            flags = []
+            for c, pol in G.atoms(facts):
+                e = lets.get(c[1]) if c[0] == "path" else c
+                if e is None or pol:
+                    continue
+                for mc in find(e, "mcall"):
+                    if mc[2] != "any" or not mc[4] or not is_node(mc[4][0]) or mc[4][0][0] != "closure":
+                        continue
+                    for m in find(mc[4][0][2], "match"):
+                        if not re.search(r"\.pattern$", render(m[1]).replace("&", "").replace("(", "").replace(")", "")):
+                            continue
+                        acc = set()
+                        for a in m[2]:
+                            if render(a[2]) == "true":
+                                for alt in (a[0][1] if a[0][0] == "por" else [a[0]]):
+                                    acc.add(re.sub(r"[({].*$", "", render_pat(alt)).strip())
+                        flags.append((render(c)[:40], acc))
+            n += 1
+            ok = bool(flags) and all(acc == {"Pattern::Wildcard"} for _, acc in flags)
+            desc = ";".join("%s=%s" % (f, "|".join(sorted(a))) for f, a in flags) or "none"
+            rep.check(ok, "C16-R9", "%s:%s" % (it["name"], s[1].split("::")[-1]) + ("" if ok else ":catch-all=" + desc.replace("Pattern::", "")[:60]),
+                      "%s raises %s only when no arm satisfies the catch-all predicate [%s]; expected exactly Pattern::Wildcard: arm lists with an arm of the other accepted shapes skip the "
+                      "exhaustiveness check although they do not cover every variant" % (it["name"], s[1], desc), "%s (mech_interpreter.lib)" % it["name"],
+                      sample={"fn": it["name"], "error": s[1], "flags": [[f, sorted(a)] for f, a in flags]})
+    rep.floor("C16-R9", "NonExhaustive error constructions examined", n, 3)
+
+
+# ---------------------------------------------------------------- C17-R7 the set of runnable states is the set of states with an arm
+def c17_state_set_from_arms(F, rep):
+    rep.rule("C17-R7", "validate_fsm_state_coverage: the set the start state and every transition target are checked against is built from the implementation's arms and from nothing "
+                       "else (a state that is only declared has no arm to run: the machine would stop there and return the raw state instead of FsmUndefinedState)")
+    its = [it for it in F.syn("mech_interpreter.lib") if it["k"] == "fn" and it["name"] == "validate_fsm_state_coverage"]
+    if not rep.check(len(its) == 1, "C17-R7", "anchor:validate_fsm_state_coverage", "validate_fsm_state_coverage not found"):
+        return
+    it = its[0]
+    body = it["body"]
+    tested = {render(m[1]).lstrip("&") for m in find(body, "mcall") if m[2] == "contains" and is_node(m[1]) and m[1][0] == "path"}
+    passed = set()
+    for c in find(body, "call"):
+        if (path_of(c[1]) or "").startswith("validate_"):
+            for a in c[2]:
+                if is_node(a) and a[0] == "ref" and is_node(a[2]) and a[2][0] == "path":
+                    passed.add(a[2][1])
+    n = 0
+    ADD = ("extend", "insert", "union", "append", "extend_from_slice", "push")
+    for st in find(body, "let"):
+        pat = st[1]
+        while pat[0] == "ptype":
+            pat = pat[1]
+        if pat[0] != "pident" or len(st) < 3 or st[2] is None:
+            continue
+        s = pat[1]
+        if s not in tested or s not in passed and s not in tested:
+            continue
+        if not any(m[2] == "collect" for m in find(st[2], "mcall")):
+            continue
+        n += 1
+        root = st[2]
+        while is_node(root) and root[0] == "mcall":
+            root = root[1]
+        src = render(root)
+        ok_src = bool(re.match(r"^&?\w+\.arms$", src))
+        adders = [render(m)[:60] for m in find(body, "mcall") if m[2] in ADD and is_node(m[1]) and render(m[1]).lstrip("&") == s]
+        ok = ok_src and not adders
+        rep.check(ok, "C17-R7", "state-set:%s" % s if ok else "state-set:%s:%s" % (s, "also-" + re.sub(r"\W+", "-", adders[0])[:40] if adders else "from-" + src[:30]),
+                  "validate_fsm_state_coverage checks the start state and the transition targets against `%s`, which is built from `%s`%s: states without an arm pass validation, and a machine "
+                  "that reaches one halts there and returns the state value itself" % (s, src, (" and then grown by " + "; ".join(adders)) if adders else ""),
+                  "validate_fsm_state_coverage (mech_interpreter.lib)", sample={"set": s, "source": src, "adders": adders})
+    rep.floor("C17-R7", "state sets used for validation", n, 1)
+    # the checks themselves: start state and targets are tested with contains(), failure ends in FsmUndefinedStateError
+    und = [s for s in find(body, "struct") if s[1].endswith("FsmUndefinedStateError")]
+    rep.floor("C17-R7", "FsmUndefinedStateError constructions in the validator", len(und), 2)
